@@ -547,6 +547,116 @@ def corruptions(here, thorough=False):
     return out
 
 
+# ------------------------------------------------ option-table and expansion grids
+
+def grid_base(here):
+    return {'main': [
+        ('supervisord', []),
+        ('program:web', [('command', '/bin/web'), ('numprocs', '2'),
+                         ('process_name', '%(program_name)s_%(process_num)d')]),
+        ('group:grp', [('programs', 'web')]),
+        ('eventlistener:lis', [('command', '/bin/lis'), ('events', 'TICK_5')]),
+        ('fcgi-program:fc', [('command', '/bin/fc'), ('socket', 'unix://%(here)s/sock/fc.sock')]),
+    ], 'incs': []}
+
+
+def option_tables():
+    """{section of grid_base: [(option, converter)]} from the translator's reading
+    of the get(...) calls, so that a new option gets its grid rows by itself."""
+    import c14_defaults
+    tables, _ = c14_defaults.code_tables()
+    uniq = lambda rows: list(dict((r[0], r[1]) for r in rows).items())
+    prog = uniq(tables['program'])
+    return {
+        'supervisord': uniq(tables['supervisord']),
+        'program:web': prog,
+        'group:grp': uniq(tables['group']),
+        'eventlistener:lis': uniq(tables['eventlistener']) + [r for r in prog if r[0] in
+                                                              ('command', 'numprocs', 'process_name', 'stdout_capture_maxbytes',
+                                                               'autostart', 'environment', 'stderr_logfile')],
+        'fcgi-program:fc': uniq(tables['fcgi-program']) + [r for r in prog if r[0] in
+                                                           ('command', 'numprocs', 'process_name', 'environment', 'directory')],
+    }
+
+
+def table_grid(here, thorough=False):
+    """Every key of every option table set to its configured-but-falsy values
+    (0, false, 000, empty) and to a bad value, one key at a time, plus every
+    [supervisord] key falsy at once: [(label, cfg)]."""
+    b = grid_base(here)
+    out = []
+    for sec, rows in option_tables().items():
+        for opt, conv in rows:
+            for v in ['0', 'false', '', 'x!'] + (['000', 'none', '-0', ' '] if thorough else []):
+                out.append(('%s %s=%r' % (sec, opt, v), _set(b, sec, opt, v)))
+    allfalsy = [('logfile_maxbytes', '0'), ('logfile_backups', '0'), ('minfds', '0'), ('minprocs', '0'),
+                ('umask', '000'), ('nodaemon', 'false'), ('silent', '0'), ('nocleanup', 'no'), ('strip_ansi', 'off'),
+                ('identifier', ''), ('environment', ''), ('logfile', ''), ('pidfile', ''), ('user', '')]
+    c = copy.deepcopy(b)
+    c['main'][0] = ('supervisord', allfalsy)
+    out.append(('supervisord: every option falsy', c))
+    for i in range(len(allfalsy)):
+        c = copy.deepcopy(b)
+        c['main'][0] = ('supervisord', allfalsy[i:i + 1] + [('loglevel', 'debug')])
+        out.append(('supervisord: %s=%r only' % allfalsy[i], c))
+    return out
+
+
+VARS = ['here', 'program_name', 'group_name', 'host_node_name', 'process_num', 'numprocs', 'ENV']
+
+
+def _var_text(var, conv, opt):
+    if var == 'process_num' or var == 'numprocs':
+        return '%%(%s)d' % var
+    if var == 'ENV':
+        name = {'integer': 'N', 'byte_size': 'N', 'boolean': 'T', 'signal_number': 'S', 'octal_type': 'N',
+                'list_of_exitcodes': 'N', 'auto_restart': 'T', 'logging_level': 'A'}.get(conv, 'A')
+        if opt == 'events':
+            name = 'E'
+        if opt == 'programs':
+            name = 'W'
+        if opt in ('umask', 'socket_mode', 'socket_backlog', 'buffer_size'):
+            name = 'N'
+        return '%%(ENV_C14_%s)s' % name
+    return '%%(%s)s' % var
+
+
+def expansion_grid(here, thorough=False):
+    """Every expansion variable in every key of every option table:
+    [(label, cfg)].  Whether the variable is available for the key (and whether
+    the expanded text converts) is what the model has to predict."""
+    b = grid_base(here)
+    out = []
+    for sec, rows in option_tables().items():
+        for opt, conv in rows:
+            for var in VARS:
+                t = _var_text(var, conv, opt)
+                if opt == 'command':
+                    v = '/bin/x --v=' + t
+                elif opt == 'process_name':
+                    v = ('p_%s' % t) if var == 'process_num' else 'p_%s_%%(process_num)d' % t
+                elif opt == 'environment':
+                    v = 'K="%s",L=%s' % (t, t) if var not in ('here',) else 'K="%s"' % t
+                elif opt.endswith('_logfile') or opt in ('logfile', 'pidfile'):
+                    v = '/tmp/c14_%s.log' % t if var != 'here' else '%s/logs/x.log' % t
+                elif opt in ('directory', 'childlogdir'):
+                    v = '/tmp/%s' % t if var != 'here' else t
+                elif opt == 'serverurl':
+                    v = 'http://h/' + t
+                elif opt == 'socket':
+                    v = 'unix:///tmp/c14_%s.sock' % t if var != 'here' else 'unix://%s/sock/x.sock' % t
+                elif opt == 'identifier':
+                    v = 'id-' + t
+                else:
+                    v = t
+                out.append(('%s %s=%s' % (sec, opt, v), _set(b, sec, opt, v)))
+    for var in ['here', 'host_node_name', 'ENV', 'program_name', 'process_num']:
+        c = copy.deepcopy(b)
+        c['main'].append(('include', [('files', '%s/none/*.conf' % _var_text(var, '', 'files'))]))
+        out.append(('include files=%s' % var, c))
+    return out
+
+
 def text_corruptions(here):
     """Corruptions of the ini text itself (tokeniser level, not modelled):
     the reader must still answer with ValueError."""
